@@ -15,7 +15,7 @@ PROP_UNITS = {
     'C11': ['draws'],
     'C20': ['csp'],
     'C12': ['tt', 'mate'],
-    'C01': ['bits', 'movegen'],
+    'C01': ['bits', 'bbtables', 'movegen'],
     'C04': ['tt', 'mate'],
     'C13': ['mate'],
     'C18': ['book'],
